@@ -43,9 +43,19 @@ impl Prog {
     /// Run the builder on a fresh initialized composer and return the snapshot
     /// (or the component error).
     pub fn run(&self) -> Result<Snapshot, Error> {
+        // the script may target the composer's own initial allocations
+        self.install_script();
         let mut c = Composer::initialized();
         self.circuit(&mut c)?;
         Ok(self.snap.borrow().clone().expect("snapshot recorded"))
+    }
+    /// Install this program's append-time script on the current thread now
+    /// (before a caller such as `Prover::prove` creates its composer, so that
+    /// the initial allocations are covered too). `circuit()` clears it again.
+    pub fn install_script(&self) {
+        if !self.script.is_empty() {
+            dusk_plonk::verif::set_witness_script(&self.script);
+        }
     }
     pub fn last_snapshot(&self) -> Option<Snapshot> {
         self.snap.borrow().clone()
